@@ -54,18 +54,7 @@ def key_of(rej):
 
 
 def report(ctx, val):
-    best, counts = {}, {}
-    for r in val.rejects:
-        k = key_of(r)
-        counts[k] = counts.get(k, 0) + 1
-        if k not in best or len(r["trace"]["raw"]) < len(best[k]["trace"]["raw"]):
-            best[k] = r
-    for k in sorted(best):
-        r = best[k]
-        t = r["trace"]
-        for _ in range(counts[k]):
-            ctx.violation(k, "%s after pass %s (snapshot %d) on %r" % (r["clause"], r["pass"], r["l"], t["raw"][:400]),
-                          {"raw": t["raw"], "lang": t["lang"], "lossless": t["lossless"], "clause": r["clause"], "pass": r["pass"], "snapshot": r["l"]})
+    shared.report(ctx, val, key_of)
 
 
 def corruptions(traces):
@@ -74,9 +63,17 @@ def corruptions(traces):
         if not (x["lossless"] and x["snaps"] and all(s["status"] == "ok" for s in x["snaps"])):
             continue
         s0 = x["snaps"][0]
-        rows = [i for i, c in enumerate(s0["cls"]) if c == "Row"]
-        if len(s0["words"]) >= 4 and len(rows) >= 2 and any(w["sec"] for w in s0["words"]) and \
-                any(len(s0["kids"][r]) >= 2 for r in rows) and "Table" in CT.trees_around(x, len(x["snaps"]))[1]["cls"]:
+        tables = [i for i, c in enumerate(s0["cls"]) if c == "Table"]
+
+        def full(r):
+            return [c for c in s0["kids"][r] if s0["cls"][c - 1] == "Cell" and s0["kids"][c - 1]]
+        big = False
+        for ti in tables:
+            rows = [r - 1 for r in s0["kids"][ti] if s0["cls"][r - 1] == "Row" and full(r - 1)]
+            if len(rows) >= 2 and any(len(full(r)) >= 2 for r in rows):
+                big = True
+        if len(s0["words"]) >= 4 and big and len(tables) == 1 and any(w["sec"] for w in s0["words"]) and \
+                "Table" in CT.trees_around(x, len(x["snaps"]))[1]["cls"]:
             t = x
             break
     if t is None:
